@@ -321,7 +321,9 @@ func RunMonitor(a MonArgs) int {
 		PropertyID: a.ID, Tier: a.Ctx.Tier, Seed: int64(a.Ctx.Seed), Level: level, Coverage: cov,
 		Assumptions: meta.Assumptions, WallS: time.Since(start).Seconds(), Violations: nviol, Verdict: verdict,
 	}
-	if a.Replay == "" {
+	// evidence describes the tree under /repo only: a run against another checkout
+	// (VERIF_REPO, used to try seeded changes) leaves the evidence files alone
+	if a.Replay == "" && os.Getenv("VERIF_REPO") == "" {
 		raw, _ := json.MarshalIndent(ev, "", " ")
 		os.WriteFile(filepath.Join(a.Root, "evidence", a.ID+".json"), raw, 0o644)
 	}
